@@ -33,7 +33,7 @@ RULE = ('Edit histories over the C03 op alphabet (set/del by name, index, VARARG
         'suspended ops add no entry. Threads: 2-4 free-running threads editing distinct configs. '
         'Non-trivial: >=3 state-changing ops; distinct = (callable, op sequence).')
 RULE_ADDITIONS = (' Added by the rounds of seeded changes (DESIGN 9.7): ' +
-                  'entry-under-wrong-key:set_tags-by-index | history/tag entry under raw int | fix')
+                  'entry-under-wrong-key:set_tags-by-index | history/tag entry under raw int | fix; non-edit API calls between edits, also while suspended; ids in program order across thread start and join')
 RULE = RULE + RULE_ADDITIONS
 ASSUMPTIONS = [
     'tag edits through fdl.add_tag etc. are attributed by fiddle to tagging.py and are not '
